@@ -21,6 +21,13 @@ class ClassDep(object):
         self.vals = vals
 
 
+class ClassOf(object):
+    """type(obj) of a heap object: decided by the class table of the heap (exact class, not isinstance)"""
+
+    def __init__(self, obj):
+        self.obj = obj
+
+
 class EngineCallable(object):
     """engine-level callable: fn(ex, st, args, kwargs, fr) -> iterable of (st, SV|Raised)"""
 
@@ -87,6 +94,13 @@ class CallMixin(object):
             if hasattr(v, 'match_obj_attr'):
                 yield v.match_obj_attr(self, st, attr)
                 return
+            if isinstance(v, ClassOf) and attr == '__name__':
+                cid = self.H(st, 'cls')[v.obj.term]
+                t = z3.StringVal('?')
+                for n, i in sorted(self.world.class_ids.items(), key=lambda kv: kv[1]):
+                    t = z3.If(cid == i, z3.StringVal(n), t)
+                yield st, SV(t, STR)
+                return
             raise OutOfReach('attribute %s of python object %r' % (attr, v))
         k = base.ty.kind
         if k in ('str', 'bytes', 'list', 'dict', 'tuple', 'set'):
@@ -116,6 +130,11 @@ class CallMixin(object):
 
     def obj_getattr(self, st, obj, attr, fr):
         cname = obj.ty.args[0]
+        if attr == '__class__':
+            if cname not in self.world.classes:
+                raise OutOfReach('__class__ of an abstract record')
+            yield st, mk(ClassOf(obj))
+            return
         if cname not in self.world.classes:
             # abstract record: schema field
             fty = self.world.field_type(cname, attr)
@@ -142,6 +161,10 @@ class CallMixin(object):
             yield self.read_field(st, obj, attr)
             return
         if raw is not None:
+            if isinstance(raw, (_types.GetSetDescriptorType, _types.MemberDescriptorType, _types.WrapperDescriptorType,
+                                _types.MethodDescriptorType)):
+                # a descriptor of `object` / a C type (__class__, __dict__, __doc__ ...): its value is not the descriptor
+                raise OutOfReach('attribute %s.%s is a built-in descriptor: not modelled' % (cname, attr))
             # plain class attribute (constant); may differ between the subclasses of the static class
             vals = {}
             for n in self.world.subclasses(cname):
@@ -439,6 +462,15 @@ class CallMixin(object):
     def call_function(self, st, fn, args, kwargs, fr, defcls=None, exact=False):
         key = func_key(fn)
         contract = self.world.contracts.get(key)
+        if key.endswith('.__setattr__') and len(args) == 3 and args[1].is_py and isinstance(args[1].py, str) and exact:
+            # statically bound super().__setattr__(<constant name>, v): the attribute-specialised contract of that class
+            ck = '%s[%s]' % (key, args[1].py)
+            spec_c = self.world.contracts.get(ck)
+            if spec_c is not None and ck != self.top_key_active():
+                def only_none(rs):
+                    for st1, r in rs:
+                        yield st1, (r if isinstance(r, Raised) else NONE_SV)
+                return only_none(self.apply_contract_env(st, spec_c, {'self': args[0], 'name': args[1], 'value': args[2]}))
         if exact:
             # statically bound call (super()): the implementation contract, not the interface, if there is one
             impl = self.world.contracts.get(key + '[impl]')
@@ -579,6 +611,14 @@ class CallMixin(object):
         if cls in (list, tuple, set, frozenset, str, int, dict, bool, reversed, enumerate, range, _it.takewhile):
             return self.call_builtin(st, cls, args, kwargs, fr)
         name = cls.__name__
+        if name == 'defaultdict' and cls.__module__ == 'collections':
+            if len(args) == 1 and args[0].is_py and args[0].py is int and not kwargs:
+                st1, a = self.alloc(st, 'dict')
+                st1 = self.HS(st1, 'Dd', z3.Store(self.H(st1, 'Dd'), a, z3.K(StrS, z3.BoolVal(False))))
+                st1 = self.HS(st1, 'Dv.I', z3.Store(self.H(st1, 'Dv.I'), a, z3.K(StrS, z3.IntVal(0))))
+                st1.ghost['ddefault:%s' % a] = mk(0)
+                return [(st1, SV(a, DictT(INT)))]
+            raise OutOfReach('defaultdict with a factory other than int')
         ckey = '%s:%s' % (cls.__module__, cls.__qualname__)
         contract = self.world.contracts.get(ckey + '.__init__') or self.world.contracts.get(ckey)
         if contract is not None:
